@@ -27,6 +27,79 @@ CLAIMED = {
     ),
 }
 
+
+ENG_TIE = ("Tied to /repo by the shared engine-family correspondence: seeded random machines (1-5 states, several "
+           "candidates per (state, event), multi-event / self / internal transitions, guards and validators, "
+           "callbacks by convention name or inline on machine / model / listeners, four declaration styles, state "
+           "values, rtc on/off, allow_event_without_transition, sync and async engines) are rendered to Python "
+           "source, driven through the public API over generated histories, and the recorded observables are "
+           "compared inside coqc (vm_compute) with the Gallina model of engines/*.py, callbacks.py, dispatcher.py "
+           "projected on what this property names; order inside one callback group is left open. ")
+
+CLAIMED.update({
+    "C01": (
+        "Theorems (Properties/C01.v): the candidate loop of _trigger is characterised completely - skipping a "
+        "prefix of unbound / guard-rejected candidates in declaration order, the first candidate bound to the event "
+        "whose activation executes fires with its result; a raising validator or callback aborts the event before "
+        "later candidates; if none qualifies TransitionNotAllowed(event, state) or nothing (allow flag); these cases "
+        "are exhaustive; under run-to-completion rejected candidates leave state/lock untouched and the stored "
+        "state afterwards is the fired target or unchanged; the faithful re-entrant entry point equals the "
+        "documented engine. For all machines, callback behaviours, triggers, configurations. " + ENG_TIE +
+        "Compared: state after each operation, exception class and TransitionNotAllowed payload, allowed_events.",
+        "Coq proof (candidate-loop characterisation, frame lemmas, engine refinement) + differential correspondence",
+        "DESIGN.md 5 C01", "Guard conjunction (cond truthy / unless falsy) is proved under C08."),
+    "C02": (
+        "Theorems (Properties/C02.v): every executed transition is exactly the chain validators, conditions, "
+        "before, exit(source) unless internal, on, THE assignment, enter(target) unless internal, after, each group "
+        "starting where the previous ended, the first five called with state=source and the last two with "
+        "state=target; the stored state is untouched until the assignment and is the target after it (RTC); a "
+        "rejected candidate runs validators and conditions only; event-named callbacks are admitted iff the trigger "
+        "is their event; one result per admitted callback; initial activation is the start state's enter group "
+        "only. " + ENG_TIE + "Compared: the order of callback invocations group by group, the injected event / "
+        "source / target / state and the current state read inside callbacks.",
+        "Coq proof (activation sequence theorem, frame lemmas) + differential correspondence",
+        "DESIGN.md 5 C02", "Exactly-once per (spec, provider) is covered by the correspondence and by C12's registry theorems."),
+    "C03": (
+        "Theorems (Properties/C03.v): while the lock is held a send from any callback only appends to the queue and "
+        "returns None; therefore the faithful engine equals the documented flat engine (refinement, all machines / "
+        "behaviours / triggers / configurations); nothing a callback does touches the lock; during an event the "
+        "queue only grows at the back and the drain loop pops at the front; the outermost call returns the first "
+        "processed event's result and never the __initial__ sentinel. " + ENG_TIE + "Compared: callback order "
+        "across events, every nested and outer return value / exception, and the engine depth of every callback "
+        "(rank of the Python stack depth), including self-triggering chains of length up to 300 (quick) / 1500 "
+        "(thorough) at constant depth and rtc=False chains at increasing depth.",
+        "Coq proof (refinement faithful engine = flat engine, lock/queue frame lemmas) + differential correspondence",
+        "DESIGN.md 5 C03", "The FIFO-blocks statement over whole drain runs and constant depth are checked by the correspondence; their Coq statements are listed as future work in DESIGN.md."),
+    "C04": (
+        "Theorems (Properties/C04.v): a failure in validators/conditions/before/exit/on escapes with the stored "
+        "state unchanged, a failure in enter/after escapes with the target stored, and no other outcome of "
+        "_activate exists (RTC); the drain loop ends with empty queue and released lock on every path, for every "
+        "wiring and fuel; hence every send / re-activation on an idle machine ends idle, returning or raising - by "
+        "induction after any history, including repeated failures. " + ENG_TIE + "Fault enumeration: for each "
+        "base scenario every callback invocation position of the fault-free run is made to raise in turn, followed "
+        "by 1-3 further sends. Compared: escaping exception, stored state, callbacks run by the following sends.",
+        "Coq proof (phase lemmas, idle invariant) + fault-enumeration differential correspondence",
+        "DESIGN.md 5 C04", "Lifetime of sibling coroutine tasks inside asyncio.gather after a failure is not modelled (partial)."),
+    "C11": (
+        "Theorems (Properties/C11.v): the __initial__ pseudo-transition carries only the start state's enter "
+        "group; activating it stores the start state and runs exactly that group; its result never becomes a "
+        "caller's result; on the sync RTC engine constructing over a stored state, or re-activating an idle "
+        "machine, runs no callback and changes nothing; the async engine's constructor processes nothing and "
+        "leaves exactly one __initial__ trigger at the head of the queue; rtc=False re-activation raises "
+        "IndexError on the pinned tree (refuted, D3). " + ENG_TIE + "Compared: callback log and model field at "
+        "construction / activation / re-construction after histories, start_value, resume from every state.",
+        "Coq proof (initial-activation equations, resume/no-op lemmas) + differential correspondence",
+        "DESIGN.md 5 C11", ""),
+    "C14": (
+        "Theorems (Properties/C14.v): the result handed to Python is unwrap(before results ++ on results): None "
+        "for none, the value for one, the list otherwise with before first; the two lists are exactly what the "
+        "before group and the on group of the executed transition returned; one value per admitted callback "
+        "(explicit None kept, other events' callbacks filtered); a tolerated event without transition returns "
+        "None. " + ENG_TIE + "Compared: the value returned by every call (order inside one group left open).",
+        "Coq proof (unwrap rule, activation result lemma) + differential correspondence",
+        "DESIGN.md 5 C14", ""),
+})
+
 PENDING_REASON = "check not built yet in this session (work in progress; see DESIGN.md 9 for the order of work)"
 
 ALL = [f"C{i:02d}" for i in range(1, 19)]
